@@ -206,8 +206,11 @@ static void fiber_event_wake_sleepers(fiber_manager_t* manager,
       assert(to_wake->waiter);
       fiber_t* const to_schedule = (fiber_t*)to_wake->waiter;
       to_schedule->state = FIBER_STATE_READY;
+      // the node lives on the sleeper's stack: read 'next' before the sleeper
+      // can be resumed (and return from fiber_sleep) on another thread
+      waiter_el_t* const next_to_wake = to_wake->next;
       fiber_manager_schedule(manager, to_schedule);
-      to_wake = to_wake->next;
+      to_wake = next_to_wake;
     } while (to_wake);
   }
 
